@@ -233,6 +233,10 @@ def validate_before_accept(prog: Program, rep, x: ExcFlow) -> None:
                     if all(f == ("truthy", f"{vt}.accepted", None) for f in extra) and s.loops == si.loops \
                             and any(t in s.tries for t in in_try):
                         checks.append(s)
+        # a return that can only happen for a NON-accepted result needs no validation (early `if not step.accepted: return step`)
+        if ("falsy", f"{vt}.accepted", None) in si.facts:
+            rep.ok("validate-before-accept", cs.short, "this return is reached only for a result that is not accepted")
+            continue
         rep.check(bool(checks) and bool(in_try), "validate-before-accept", cs.qualname, short(r),
                   "before a possibly accepted result is returned, <result>.iterate.check_eval() runs inside the try that converts EvalError",
                   cs.loc(r))
